@@ -32,6 +32,30 @@ pub enum Case {
         /// Random schedules (in addition to the enumerated <=2-switch ones).
         random: Vec<Vec<(u8, u16)>>,
     },
+    /// Two deletes / garbage collections racing on one archive: each may remove only after
+    /// it has taken the lock, and only its own lock file.
+    GcRace {
+        hist: History,
+        sel1: Vec<u16>,
+        sel2: Vec<u16>,
+        random: Vec<Vec<(u8, u16)>>,
+    },
+}
+
+/// One scheduled run: the schedule and the injected storage errors (usually none).
+#[derive(Debug, Clone, PartialEq, Serialize, Deserialize)]
+pub struct Inner {
+    pub sch: Schedule,
+    #[serde(default)]
+    pub faults: Vec<crate::hooks::RaceFault>,
+}
+
+fn parse_only(cx: &Cx) -> Option<Inner> {
+    cx.only_inner.as_ref().and_then(|v| {
+        serde_json::from_value::<Inner>(v.clone())
+            .ok()
+            .or_else(|| serde_json::from_value::<Schedule>(v.clone()).ok().map(|sch| Inner { sch, faults: vec![] }))
+    })
 }
 
 fn strategy(tier: Tier) -> BoxedStrategy<Case> {
@@ -53,9 +77,18 @@ fn strategy(tier: Tier) -> BoxedStrategy<Case> {
             opts2,
             random,
         });
+    let gc_cfg = crate::history::HistCfg { max_ops: 5, deletes: false, ..hist_cfg(tier) };
+    let gc_race = (
+        history_strategy(gc_cfg),
+        prop::collection::vec(any::<u16>(), 0..3),
+        prop::collection::vec(any::<u16>(), 0..3),
+        prop::collection::vec(prop::collection::vec((0u8..2, 1u16..8), 2..8), tier.pick(10, 60)),
+    )
+        .prop_map(|(hist, sel1, sel2, random)| Case::GcRace { hist, sel1, sel2, random });
     prop_oneof![
         40 => history_strategy(hist_cfg(tier)).prop_map(Case::Hist),
         1 => race,
+        1 => gc_race,
     ]
     .boxed()
 }
@@ -243,11 +276,13 @@ fn run_race(
 
     // trace lengths from solo runs
     let mut lens = [0usize; 2];
+    let mut block_writes = [0usize; 2];
     for (k, (src, opts)) in [(&src1, opts1), (&src2, opts2)].iter().enumerate() {
         let ctl = crate::hooks::Ctl::new(&w.arch, crate::hooks::Plan::None);
         let hook: ops::Hook = Some(ctl.clone() as std::sync::Arc<dyn conserve::transport::verif::Interceptor>);
         let _ = ops::backup(&w.arch, &hook, src, *opts, &[]);
         lens[k] = ctl.log().len();
+        block_writes[k] = ctl.log().iter().filter(|l| l.key.verb == V::Write && l.key.path.starts_with("d/")).count();
         crate::engine::force_remove(&w.arch);
         scen::copy_dir(&pristine, &w.arch);
     }
@@ -258,28 +293,51 @@ fn run_race(
     ];
     let mut schedules = race::enumerate_two(&points, 2);
     schedules.extend(random.iter().map(|r| Schedule(r.clone())));
-    let only: Option<Schedule> = cx.only_inner.as_ref().and_then(|v| serde_json::from_value(v.clone()).ok());
+    let mut runs: Vec<Inner> = schedules.into_iter().map(|sch| Inner { sch, faults: vec![] }).collect();
+    // One block write of one racer fails (the racer pauses after p operations, the other
+    // runs through, the racer carries on): a failed write must not lead to anything being
+    // removed or overwritten, whoever wrote the file that is there.
+    {
+        use crate::hooks::{Kind as EK, RaceFault};
+        for a in 0..2usize {
+            let nths = scen::thin(&(0..block_writes[a] as u16).collect::<Vec<_>>(), cx.tier.pick(3, 8));
+            let pauses = scen::thin(&points[a], cx.tier.pick(6, 12));
+            for nth in &nths {
+                for kind in [EK::Other, EK::PermissionDenied, EK::NotFound] {
+                    for p in &pauses {
+                        runs.push(Inner {
+                            sch: Schedule(vec![(a as u8, *p), (1 - a as u8, u16::MAX)]),
+                            faults: vec![RaceFault { actor: a, verb: Some(V::Write), prefix: "d/".into(), nth: *nth, kind }],
+                        });
+                    }
+                }
+            }
+        }
+    }
+    let only = parse_only(cx);
     let mut evals = 0u64;
     let mut nontrivial = 0u64;
     let mut n = 0u32;
-    for sch in schedules {
+    for inner in runs {
         if let Some(o) = &only {
-            if *o != sch {
+            if *o != inner {
                 continue;
             }
         }
+        let sch = &inner.sch;
         crate::engine::heartbeat();
         crate::engine::force_remove(&w.arch);
         scen::copy_dir(&pristine, &w.arch);
         let (a1, a2) = (w.arch.clone(), w.arch.clone());
         let (s1, s2) = (src1.clone(), src2.clone());
-        let out = race::run(
+        let out = race::run_with_faults(
             &w.arch,
             vec![
                 Box::new(move |hook| ops::backup(&a1, &hook, &s1, opts1, &[]).map(|o| o.stats)),
                 Box::new(move |hook| ops::backup(&a2, &hook, &s2, opts2, &[]).map(|o| o.stats)),
             ],
-            &sch,
+            sch,
+            inner.faults.clone(),
         );
         evals += 1;
         // both listed the bands before either created one?
@@ -370,12 +428,162 @@ fn run_race(
             Ok(())
         })();
         if let Err(f) = res {
-            cx.inner_failure(f.with_inner(json!(sch)))?;
+            let f = if inner.faults.is_empty() { f } else { Failure::new(format!("{}/with-storage-error", f.signature), f.message.clone()) };
+            cx.inner_failure(f.with_inner(json!(inner)))?;
         }
     }
     cx.add_evals(evals);
     cx.inner_nontrivial += nontrivial;
     cx.label("race");
+    Ok(())
+}
+
+fn run_gc_race(hist: &History, sel1: &[u16], sel2: &[u16], random: &[Vec<(u8, u16)>], cx: &mut Cx) -> CaseResult {
+    let mut w = World::for_history(&cx.scratch, hist);
+    for op in &hist.ops {
+        let _ = w.apply(op);
+    }
+    let ids: Vec<u32> = w.bands.keys().copied().collect();
+    let pick_ids = |sel: &[u16]| -> Vec<u32> {
+        let mut v: Vec<u32> = sel.iter().filter(|_| !ids.is_empty()).map(|i| ids[(*i as usize * ids.len()) >> 16]).collect();
+        v.sort();
+        v.dedup();
+        v
+    };
+    let req = [pick_ids(sel1), pick_ids(sel2)];
+    let pristine = cx.dir("pristine");
+    scen::copy_dir(&w.arch, &pristine);
+    let before = format::raw_tree(&pristine);
+    let pre = format::scan(&pristine);
+    std::fs::create_dir_all(cx.dir("r")).unwrap();
+    // switch points from solo runs
+    let mut points: [Vec<u16>; 2] = [vec![], vec![]];
+    let mut solo_ok = [false; 2];
+    for k in 0..2 {
+        let ctl = crate::hooks::Ctl::new(&w.arch, crate::hooks::Plan::None);
+        let hook: ops::Hook = Some(ctl.clone() as std::sync::Arc<dyn conserve::transport::verif::Interceptor>);
+        let r = ops::delete_bands(&w.arch, &hook, &req[k], false, false);
+        solo_ok[k] = r.result.is_ok();
+        let (all, _crit) = race::key_points(&ctl.log());
+        points[k] = scen::thin(&all, cx.tier.pick(10, 30));
+        crate::engine::force_remove(&w.arch);
+        scen::copy_dir(&pristine, &w.arch);
+    }
+    let mut schedules = race::enumerate_two(&points, 2);
+    schedules.extend(random.iter().map(|r| Schedule(r.clone())));
+    let only = parse_only(cx);
+    let mut evals = 0u64;
+    let mut nontrivial = 0u64;
+    let mut n = 0u32;
+    for sch in schedules {
+        let inner = Inner { sch: sch.clone(), faults: vec![] };
+        if let Some(o) = &only {
+            if *o != inner {
+                continue;
+            }
+        }
+        crate::engine::heartbeat();
+        crate::engine::force_remove(&w.arch);
+        scen::copy_dir(&pristine, &w.arch);
+        let (a1, a2) = (w.arch.clone(), w.arch.clone());
+        let (r1, r2) = (req[0].clone(), req[1].clone());
+        let out = race::run(
+            &w.arch,
+            vec![
+                Box::new(move |hook| ops::delete_bands(&a1, &hook, &r1, false, false).map(|_| ())),
+                Box::new(move |hook| ops::delete_bands(&a2, &hook, &r2, false, false).map(|_| ())),
+            ],
+            &sch,
+        );
+        evals += 1;
+        let res: CaseResult = (|| {
+            for (i, r) in out.results.iter().enumerate() {
+                if let Some(p) = &r.panic {
+                    fail!(format!("C07/gc-race/delete-panic@{}", ops::panic_site(p)), "actor {i}: {p}");
+                }
+            }
+            // who holds the lock when
+            let mut holder: Option<usize> = None;
+            let mut both_wanted = [false; 2];
+            for (a, l) in &out.trace {
+                let is_lock = l.key.path == "GC_LOCK";
+                if is_lock && l.key.verb == V::Metadata {
+                    both_wanted[*a] = true;
+                }
+                match l.key.verb {
+                    V::Write if is_lock && l.ok => {
+                        if let Some(h) = holder {
+                            fail!("C07/gc-race/two-lock-holders", "actor {a} wrote GC_LOCK while actor {h} held it");
+                        }
+                        holder = Some(*a);
+                    }
+                    V::Write | V::CreateDir if !is_lock => {
+                        fail!("C07/gc-race/delete-writes", "actor {a} issued {:?} {}", l.key.verb, l.key.path)
+                    }
+                    V::RemoveFile if is_lock => {
+                        ensure!(
+                            holder == Some(*a),
+                            "C07/gc-race/removed-foreign-lock",
+                            "actor {a} removed GC_LOCK, which it had not taken (holder: {holder:?})"
+                        );
+                        if l.ok {
+                            holder = None;
+                        }
+                    }
+                    V::RemoveFile | V::RemoveDirAll => {
+                        ensure!(
+                            holder == Some(*a),
+                            "C07/gc-race/removal-without-lock",
+                            "actor {a} issued {:?} {} without holding the lock (holder: {holder:?})",
+                            l.key.verb,
+                            l.key.path
+                        );
+                    }
+                    _ => {}
+                }
+            }
+            if both_wanted[0] && both_wanted[1] {
+                nontrivial += 1;
+            }
+            // what is gone was requested by an actor that succeeded, or was unreferenced
+            let done: BTreeSet<u32> = (0..2).filter(|i| out.results[*i].result.is_ok()).flat_map(|i| req[i].iter().copied()).collect();
+            let kept: Vec<u32> = pre.bands.keys().copied().filter(|b| !done.contains(b)).collect();
+            let referenced = pre.referenced_hashes(kept.iter().copied());
+            let after = format::raw_tree(&w.arch);
+            for (p, bytes) in &before {
+                match after.get(p) {
+                    Some(a) if a == bytes => {}
+                    Some(_) => fail!("C07/gc-race/file-modified", "{p} was modified"),
+                    None => {
+                        let top = p.split('/').next().unwrap_or("");
+                        let in_done_band = top.starts_with('b') && top[1..].parse::<u32>().map_or(false, |b| done.contains(&b));
+                        let unref_block = p.starts_with("d/") && !p.ends_with('/') && !referenced.contains(p.rsplit('/').next().unwrap());
+                        ensure!(
+                            in_done_band || unref_block || p == "GC_LOCK" || (p.starts_with("d/") && p.ends_with('/')),
+                            "C07/gc-race/removed-other-file",
+                            "{p} is gone after deletes of {:?} and {:?} (succeeded: {done:?}); it belongs to a kept version",
+                            req[0],
+                            req[1]
+                        );
+                    }
+                }
+            }
+            ensure!(!after.contains_key("GC_LOCK"), "C07/gc-race/lock-left-behind", "GC_LOCK still exists after both deletes returned");
+            for (id, t) in w.complete_bands() {
+                if kept.contains(&id) {
+                    crate::props::c02::check_restore(&w, cx, &Sel::Band(id), t, 0, "C07/gc-race/kept-version", &mut n)?;
+                }
+            }
+            Ok(())
+        })();
+        if let Err(f) = res {
+            cx.inner_failure(f.with_inner(json!(inner)))?;
+        }
+    }
+    cx.add_evals(evals);
+    cx.inner_nontrivial += nontrivial;
+    cx.label("gc-race");
+    cx.label_if(solo_ok[0] && solo_ok[1], "gc-race/both-deletes-possible");
     Ok(())
 }
 
@@ -385,6 +593,7 @@ fn run(case: &Case, cx: &mut Cx) -> CaseResult {
         Case::Race { initial, base, edits1, edits2, opts1, opts2, random } => {
             run_race(initial, *base, edits1, edits2, *opts1, *opts2, random, cx)
         }
+        Case::GcRace { hist, sel1, sel2, random } => run_gc_race(hist, sel1, sel2, random, cx),
     }
 }
 
